@@ -68,3 +68,83 @@ Check C17_bad_control_byte_fails_stream : forall (fuel : positive) (dec : lzma2_
   iter_step n (l2_body fuel) (l2_w0 dec io0) = Next w -> (n < Pos.to_nat fuel)%nat ->
   FaultFree (w_src w) -> s_rest (w_src w) = c :: t -> 3 <= c <= 127 -> fst (lzma2_decompress fuel dec io0) = Failed ELzma.
 Print Assumptions C17_bad_control_byte_fails_stream.
+
+From LZ Require Import Model.Lzma2 Format.RefEnc Format.Lzma2Fmt Proofs.Lzma2Exact Proofs.CutShortLzma2 Proofs.CutShort.
+
+(* "a compressed chunk whose payload needs more input than its declared compressed size": in a well-formed sequence, reduce the compressed-size field of a compressed chunk AT ANY POSITION to any m < payload length (all other bytes in place): the stream is rejected, every fragmentation   [proved as lzma2_short_packed_size_rejected in Proofs/CutShort.v] *)
+Theorem C17_short_packed_size_rejected :
+  forall (cs1 : list chunk) (cls : N) (np : option fprops) (prog : list sym) (delta : N) 
+    (cs2 : list chunk) (b1 : list N) (s1 : l2state) (bc : list N) (s2 : l2state) (b3 : list N) 
+    (s3 : l2state) (m : N) (trail : list N) (frag : N -> N) (k : snk) (fuel : positive),
+  ser_chunks_gen false l2state0 cs1 = Some (b1, s1) ->
+  ser_chunk_gen false s1 (CLzma cls np prog delta) = Some (bc, s2) ->
+  ser_chunks_gen false s2 cs2 = Some (b3, s3) ->
+  Lzma2ExactChunk.wf_seq (cs1 ++ CLzma cls np prog delta :: cs2) ->
+  k_wfail k = None ->
+  k_ffail k = false ->
+  fuel_ok fuel (cs1 ++ CLzma cls np prog delta :: cs2) ->
+  1 <= m ->
+  m + chunk_hdr_len cls < nlen bc ->
+  exists (x : err) (w' : io),
+    lzma2_decompress_top fuel
+      {| i_src := src_of ((b1 ++ with_packed_field bc m ++ b3 ++ [0]) ++ trail) frag None; i_snk := k |} =
+    (Failed x, w').
+Proof. exact (@lzma2_short_packed_size_rejected). Qed.
+Check C17_short_packed_size_rejected :
+  forall (cs1 : list chunk) (cls : N) (np : option fprops) (prog : list sym) (delta : N) 
+    (cs2 : list chunk) (b1 : list N) (s1 : l2state) (bc : list N) (s2 : l2state) (b3 : list N) 
+    (s3 : l2state) (m : N) (trail : list N) (frag : N -> N) (k : snk) (fuel : positive),
+  ser_chunks_gen false l2state0 cs1 = Some (b1, s1) ->
+  ser_chunk_gen false s1 (CLzma cls np prog delta) = Some (bc, s2) ->
+  ser_chunks_gen false s2 cs2 = Some (b3, s3) ->
+  Lzma2ExactChunk.wf_seq (cs1 ++ CLzma cls np prog delta :: cs2) ->
+  k_wfail k = None ->
+  k_ffail k = false ->
+  fuel_ok fuel (cs1 ++ CLzma cls np prog delta :: cs2) ->
+  1 <= m ->
+  m + chunk_hdr_len cls < nlen bc ->
+  exists (x : err) (w' : io),
+    lzma2_decompress_top fuel
+      {| i_src := src_of ((b1 ++ with_packed_field bc m ++ b3 ++ [0]) ++ trail) frag None; i_snk := k |} =
+    (Failed x, w').
+Print Assumptions C17_short_packed_size_rejected.
+
+(* "the input ends before the end control byte": every strict prefix of a well-formed LZMA2 stream is rejected   [proved as lzma2_truncated_rejected in Proofs/CutShort.v] *)
+Theorem C17_truncated_stream_rejected :
+  forall (cs : list chunk) (bytes out : list N) (frag : N -> N) (k : snk) (fuel : positive) (cut : list N),
+  ser2_gen false cs = Some (bytes, out) ->
+  Lzma2ExactChunk.wf_seq cs ->
+  k_wfail k = None ->
+  k_ffail k = false ->
+  fuel_ok fuel cs ->
+  cut_of cut bytes ->
+  exists (x : err) (w' : io),
+    lzma2_decompress_top fuel {| i_src := src_of cut frag None; i_snk := k |} = (Failed x, w').
+Proof. exact (@lzma2_truncated_rejected). Qed.
+Check C17_truncated_stream_rejected :
+  forall (cs : list chunk) (bytes out : list N) (frag : N -> N) (k : snk) (fuel : positive) (cut : list N),
+  ser2_gen false cs = Some (bytes, out) ->
+  Lzma2ExactChunk.wf_seq cs ->
+  k_wfail k = None ->
+  k_ffail k = false ->
+  fuel_ok fuel cs ->
+  cut_of cut bytes ->
+  exists (x : err) (w' : io),
+    lzma2_decompress_top fuel {| i_src := src_of cut frag None; i_snk := k |} = (Failed x, w').
+Print Assumptions C17_truncated_stream_rejected.
+
+(* format-independent form for lzma2_decompress   [proved as lzma2_cut_short_general in Proofs/CutShortLzma2.v] *)
+Theorem C17_accepted_stream_cannot_be_cut :
+  forall (fuel : positive) (D more : list N) (frag frag' : N -> N) (k : snk) (w2' : io),
+  lzma2_decompress_top fuel {| i_src := src_of (D ++ more) frag None; i_snk := k |} = (Done tt, w2') ->
+  nlen D < s_pos (i_src w2') ->
+  exists (x : err) (w1' : io),
+    lzma2_decompress_top fuel {| i_src := src_of D frag' None; i_snk := k |} = (Failed x, w1').
+Proof. exact (@lzma2_cut_short_general). Qed.
+Check C17_accepted_stream_cannot_be_cut :
+  forall (fuel : positive) (D more : list N) (frag frag' : N -> N) (k : snk) (w2' : io),
+  lzma2_decompress_top fuel {| i_src := src_of (D ++ more) frag None; i_snk := k |} = (Done tt, w2') ->
+  nlen D < s_pos (i_src w2') ->
+  exists (x : err) (w1' : io),
+    lzma2_decompress_top fuel {| i_src := src_of D frag' None; i_snk := k |} = (Failed x, w1').
+Print Assumptions C17_accepted_stream_cannot_be_cut.
